@@ -371,6 +371,7 @@ def run(ctx):
         ordinary_status(ctx, forest)
         unwritable_everywhere(ctx, forest)
         regex_operands(ctx, forest)
+        fprintf_keeps_file(ctx, forest)
         panic_inventory(ctx)
     finally:
         forest.close()
@@ -453,7 +454,29 @@ REGEX_OPERANDS = [("posix-extended", "a{2,1}", False), ("posix-basic", "a\\{2,1\
                   ("emacs", "a\\{2,1\\}", True), ("posix-extended", "a{1,2}", True), ("posix-extended", "[{2,1}]", True), ("posix-extended", "[[:alpha:]{2,1}]", True),
                   ("posix-extended", "(a{3,2})", False), ("posix-extended", "\\\\{2,1}", False), ("posix-extended", "[", False), ("posix-basic", "\\(", False),
                   ("posix-extended", "(", False), ("posix-extended", "a)", True), ("emacs", "\\(", False), ("posix-extended", "a{1", False),
-                  ("posix-basic", "a\\{1", False), ("posix-extended", "a{x}", False)]
+                  ("posix-basic", "a\\{1", False), ("posix-extended", "a{x}", False),
+                  # back-references: the group must be complete where the reference stands
+                  ("emacs", "\\1\\(a\\)", False), ("emacs", ".*\\(a\\)\\(\\2\\)", False), ("emacs", "\\(\\1\\)", False), ("grep", "\\(a\\2\\)\\(b\\)", False),
+                  ("posix-extended", "(\\1)", False), ("posix-extended", ".*/\\2(a)(a)", False), ("posix-extended", "((a)\\1)", False),
+                  ("posix-extended", "a)\\1", False), ("posix-extended", "(a)(b)\\3", False), ("emacs", "\\(a\\)\\1", True),
+                  ("emacs", "\\(\\(a\\)\\2\\)", True), ("posix-extended", "(a)(b|\\1)", True), ("posix-extended", "[\\1](a)", True),
+                  ("posix-extended", "(a)\\\\1", True), ("posix-basic", "\\(a\\)*\\1", True)]
+
+
+def fprintf_keeps_file(ctx, forest):
+    """a vector rejected for the format of -fprintf leaves the file it names as it was"""
+    keep = os.path.join(forest.dir.decode(), "precious")
+    for fmt in ("%(", "abc\\", "%", "\\q"):
+        with open(keep, "w") as f:
+            f.write("precious\n")
+        line = "find - %s %s" % (fw.hexs(forest.dir), xc.hexlist([b"sb", b"-fprintf", b"precious", fmt.encode()]))
+        code, out, err = wc.decode_find(xc.run_impl([line])[0])
+        left = open(keep).read()
+        ctx.count(("fprintf-keeps-file", fmt), True, "fprintf-keeps-file")
+        if code != 1 or left != "precious\n":
+            ctx.violation("find sb -fprintf precious %r: exit %s, the file now holds %r; a command line that is rejected leaves it alone" % (fmt, code, left),
+                          {"property": "C11", "kind": "fprintf-keeps-file", "format": fmt, "exit": str(code), "content_after": left})
+    os.remove(keep)
 
 
 def interval_operands():
